@@ -200,6 +200,14 @@ def conv_args(name, a):
         a["rules"] = conv_rules(a["rules"])
     if name == "IndexBatchCrawl":
         a["data"] = [{"src": s, "tgts": list(t)} for s, t in a["data"]]
+    if name in ("Paginate", "PagLinks"):
+        from impl import token_decode
+        tok = a.pop("token")
+        d = token_decode(tok) if tok else None
+        a["hasTok"] = bool(tok)
+        a["ti"] = d[0] if d else 0
+        a["tpath"] = list(d[1]) if d else []
+        a["badTok"] = bool(tok) and d is None
     if not a:
         a = {"none": 0}
     return a
